@@ -371,8 +371,6 @@ class Interp:
         if k == "copy":
             src = self.ev(e[2], env, genv)
             dst = self.lookup(e[1][1], env, genv)[e[1][1]]
-            if len(dst) > len(src):
-                raise Undefined("copy into longer destination")
             if dst is src:
                 return len(src)
             for i, v in enumerate(list(src)):
